@@ -71,6 +71,7 @@ type OpInst struct {
 	Fail    FailMode
 	FailArg int
 	InData  [][]byte
+	Script  string // the complete `bash -c` script this command was part of
 	Written map[string]bool
 }
 
@@ -203,9 +204,10 @@ func tokenize(src string) ([]token, error) {
 }
 
 type shellRun struct {
-	sh  *Shell
-	cwd string
-	out []byte
+	sh     *Shell
+	cwd    string
+	out    []byte
+	script string
 }
 
 // Exec runs a `bash -c` script. It returns combined output and an error for a
@@ -217,7 +219,7 @@ func (sh *Shell) Exec(script string) ([]byte, error) {
 	if err != nil {
 		s.HarnessFail(err.Error())
 	}
-	r := &shellRun{sh: sh, cwd: s.FS.Cwd}
+	r := &shellRun{sh: sh, cwd: s.FS.Cwd, script: script}
 	status := 0
 	signal := ""
 	i := 0
@@ -606,6 +608,7 @@ func (sh *Shell) runOp(r *shellRun, w []string) (int, string) {
 	s := sh.s
 	fs := s.FS
 	o := sh.parseOp(r, w)
+	o.Script = r.script
 	if sh.Plan != nil {
 		sh.Plan(o)
 	}
@@ -746,7 +749,7 @@ func (sh *Shell) runOp(r *shellRun, w []string) (int, string) {
 		}
 		fs.AppendData(n, abs, []byte("extra:"+o.Key+"\n"))
 	}
-	if step("exit", "") {
+	if step("exit", "") || o.Fail == FailSignal {
 		return sh.finish(o, -1, "killed")
 	}
 	if o.Fail == FailExitAfter {
